@@ -236,10 +236,12 @@ pub fn eval_case(c: &Case) -> Result<(&'static str, Option<dm::PanicInfo>), Stri
 // ------------------------------------------------------------------------------------------------
 // generators
 
-const FIELD_TYPES: [&str; 24] = [
+const FIELD_TYPES: [&str; 27] = [
     "i32", "T", "Backtrace", "std::backtrace::Backtrace", "Vec<T>", "&'a str", "[u8; N]", "(i32, T)", "Box<dyn Fn(T) -> T>", "<T as Tr>::A", "fn(T) -> T", "*const T",
     "[T]", "!", "_", "impl Clone", "(T)", "m!()", "dyn Tr<T> + 'a", "Option<&'a mut T>", "::std::string::String",
     "core::marker::PhantomData<T>", "[[T; 2]; N]", "for<'b> fn(&'b T)",
+    // (found uncovered by the coverage measurement: `Fn` sugar without a return type, inside a path, with a lifetime bound)
+    "Box<dyn Fn(u8)>", "Box<dyn FnMut(T) + 'a>", "M<dyn Fn() -> T>",
 ];
 
 const GENERICS: [&str; 7] = [
@@ -283,7 +285,7 @@ fn gen_item(d: &mut Dice, attr: Option<(&str, &dyn Fn(&mut Dice, usize) -> Optio
     };
     let generics = GENERICS[d.pick(GENERICS.len())];
     let wh = if !generics.is_empty() && d.chance(20) { " where T: Clone" } else { "" };
-    let fty = |d: &mut Dice| FIELD_TYPES[d.weighted(&[8, 6, 2, 1, 2, 2, 2, 2, 1, 1, 1, 1, 1, 1, 1, 1, 1, 1, 1, 1, 1, 1, 1, 1])].to_string();
+    let fty = |d: &mut Dice| FIELD_TYPES[d.weighted(&[8, 6, 2, 1, 2, 2, 2, 2, 1, 1, 1, 1, 1, 1, 1, 1, 1, 1, 1, 1, 1, 1, 1, 1, 1, 1, 1])].to_string();
     let names = ["a", "b", "source", "backtrace", "r#type", "_0"];
     // identifiers beyond plain ASCII words (underscores, digits, raw, non-ASCII XID incl. characters whose case mapping
     // changes their length): the expanders re-case names and build new identifiers from them
@@ -418,7 +420,7 @@ fn templates(derive: &str) -> &'static [&'static str] {
     match derive {
         "Display" | "Binary" | "Octal" | "LowerHex" | "UpperHex" | "LowerExp" | "UpperExp" | "Pointer" => &[
             "(\"{}\", _0)", "(\"{a} {b}\")", "(\"{_0:?} {}\", self.x())", "(bound(T: Clone))", "(bounds(T: core::fmt::Display, Vec<T>: Clone))",
-            "(rename_all = \"snake_case\")", "(\"{_variant}: {}\", _0)", "(\"{x}\", x = a.len())", "(\"{:>1$}\", _0, 7)", "(\"{0:.*}\", 2, _0)",
+            "(rename_all = \"snake_case\")", "(renamed_all = \"snake_case\")", "(rename_all = 1)", "(\"{_variant}: {}\", _0)", "(\"{x}\", x = a.len())", "(\"{:>1$}\", _0, 7)", "(\"{0:.*}\", 2, _0)",
             "(fmt = \"{}\", _0)", "(fmt = \"{}\", \"_0\")", "(bound = \"T: Clone\")", "(\"{}\", _0 == _1)", "(\"{}\", _0 as M<i32, T>)",
             "(\"{_0:p} {}\", _0)", "(\"{a:p} {b:p}\")", "(\"{_0:p}\", _0 = 1)",
         ],
@@ -427,7 +429,7 @@ fn templates(derive: &str) -> &'static [&'static str] {
         "Into" => &["", "(owned)", "(ref)", "(ref_mut)", "(owned, ref(i32), ref_mut)", "(i32, i64)", "(skip)", "(ignore)", "(owned(i64), ref)", "(owned(i64,), ref)", "(owned(i64), owned, ref_mut)", "(owned(i64,), ref(i32,),)", "(i32, i64,)", "(owned(i64) ref)", "(types(i32))", "(owned(types(i32)))", "(owned, types(i32, i64))", "(repr(u8))"],
         "AsRef" | "AsMut" => &["", "(forward)", "(skip)", "(ignore)", "(i32)", "(str, [u8])", "(T)"],
         "TryFrom" => &["(repr)"],
-        "Error" => &["(source)", "(backtrace)", "(not(source))", "(not(backtrace))", "(ignore)", "(source, backtrace)", "(not(source), backtrace)"],
+        "Error" => &["(source)", "(backtrace)", "(not(source))", "(not(backtrace))", "(ignore)", "(source, backtrace)", "(not(source), backtrace)", "(not(not(source)))", "(not(source, backtrace))", "(not(source), not(backtrace))"],
         "Deref" | "DerefMut" => &["", "(forward)", "(ignore)"],
         "Index" | "IndexMut" => &["", "(ignore)"],
         "IntoIterator" => &["", "(ignore)", "(owned)", "(ref)", "(ref_mut)", "(owned, ref, ref_mut)"],
